@@ -223,8 +223,7 @@ func execPubCase(x *execCtx) {
 			k := atoi(f["sub"]) - 1
 			got := "none"
 			if k >= 0 && k < len(r.subs) {
-				select {
-				case v, ok := <-r.subs[k].s.Receive():
+				take := func(v int, ok bool) {
 					if ok {
 						got = fmt.Sprint(v)
 						r.mu.Lock()
@@ -233,7 +232,25 @@ func execPubCase(x *execCtx) {
 					} else {
 						got = "closed"
 					}
-				case <-time.After(2 * time.Millisecond):
+				}
+				// at a quiescent point a buffered value or a blocked sender makes the channel ready at once.  The timer is
+				// only a guard; on a loaded machine it may have fired by the time the select looks (both cases ready, random
+				// choice), so the channel is polled without it first and once more after it.
+				ch := r.subs[k].s.Receive()
+				select {
+				case v, ok := <-ch:
+					take(v, ok)
+				default:
+					select {
+					case v, ok := <-ch:
+						take(v, ok)
+					case <-time.After(2 * time.Millisecond):
+						select {
+						case v, ok := <-ch:
+							take(v, ok)
+						default:
+						}
+					}
 				}
 			}
 			out(line, r.observe("got="+got+" "))
